@@ -152,6 +152,9 @@ class SeededRng(object):
         return make_stream(self.c, "seed[%s]" % (seed,))
 
 
+SEEDS = (0, 1, 12345, 2 ** 32 - 1)
+
+
 def seed_unit(rname):
     from pygom.utilR import distn
     import scipy.stats
@@ -159,7 +162,6 @@ def seed_unit(rname):
     def h(c):
         if c.mode != "sym":
             return
-        seed = 12345
         kwargs = {"rexp": lambda: dict(rate=c.real("rate", lo=0.2, hi=5)),
                   "rgamma": lambda: dict(shape=c.real("shape", lo=0.2, hi=5), rate=c.real("rate", lo=0.2, hi=5)),
                   "rnorm": lambda: dict(mean=c.real("mean"), sd=c.real("sd", lo=0.1, hi=5)), "rchisq": lambda: dict(df=c.real("df", lo=0.5, hi=9)),
@@ -185,15 +187,19 @@ def seed_unit(rname):
                         return s.uniform(0, 1, size=size)
                 return D()
         from .stoch import global_rng
-        for n in (1, 3):
-            with global_rng(glob), stubs.patched((np.random, "RandomState", RS), (distn, "st", St())):
-                a = f(n, seed=seed, **kwargs)
-                b = f(n, seed=seed, **kwargs)
-            fa = list(np.asarray(a, dtype=object).ravel())
-            fb = list(np.asarray(b, dtype=object).ravel())
-            c.prove(len(fa) == n and len(fb) == n, "%s(n=%d) returns n draws" % (rname, n))
-            c.prove(all_close(fa, fb, c) if len(fa) == len(fb) else False, "%s(n=%d, seed=s) twice returns the same draws" % (rname, n))
-    return Unit("C19.seed.%s" % rname, h, bounds={"n": [1, 3], "seed": "integer"}, max_paths=20, replay=lambda vals, label: replay_seed(rname))
+        for seed in SEEDS:
+            for n in (1, 3):
+                with global_rng(glob), stubs.patched((np.random, "RandomState", RS), (distn, "st", St()),
+                                                      (np.random, "get_state", glob.get_state)):
+                    a = f(n, seed=seed, **kwargs)
+                    glob.normal()          # some unseeded draw in between advances numpy's global generator
+                    b = f(n, seed=seed, **kwargs)
+                fa = list(np.asarray(a, dtype=object).ravel())
+                fb = list(np.asarray(b, dtype=object).ravel())
+                c.prove(len(fa) == n and len(fb) == n, "%s(n=%d) returns n draws" % (rname, n))
+                c.prove(all_close(fa, fb, c) if len(fa) == len(fb) else False,
+                        "%s(n=%d, seed=%d) twice (global generator advanced in between) returns the same draws" % (rname, n, seed))
+    return Unit("C19.seed.%s" % rname, h, bounds={"n": [1, 3], "seeds": list(SEEDS), "between_calls": "one unseeded draw from the global generator"}, max_paths=20, replay=lambda vals, label: replay_seed(rname))
 
 
 def replay_seed(rname):
@@ -202,11 +208,13 @@ def replay_seed(rname):
           "runif": dict(min=-1.0, max=4.0), "rpois": dict(mu=3.0), "rbinom": dict(size=7, prob=0.4)}[rname]
     f = getattr(distn, rname)
     bad = {}
-    for n in (1, 3):
-        a = np.asarray(f(n, seed=12345, **kw)).ravel()
-        b = np.asarray(f(n, seed=12345, **kw)).ravel()
-        if a.shape != b.shape or not np.array_equal(a, b):
-            bad["n=%d" % n] = [a.tolist(), b.tolist()]
+    for seed in SEEDS:
+        for n in (1, 3):
+            a = np.asarray(f(n, seed=seed, **kw)).ravel()
+            np.random.normal()
+            b = np.asarray(f(n, seed=seed, **kw)).ravel()
+            if a.shape != b.shape or not np.array_equal(a, b):
+                bad["seed=%d,n=%d" % (seed, n)] = [a.tolist(), b.tolist()]
     return bool(bad), bad
 
 
